@@ -155,7 +155,7 @@ def check_doc(r, m, bystander, case_base, by_lines=(), length_clause=True):
     r.outcome('distinct-layouts=%d' % min(len(outs), 12))
 
 
-EMPTY_ITEM = re.compile(r'^(?:> ?| )*(?:(?:[-+*]|\d{1,9}[.)]) +)*(?:[-+*]|\d{1,9}[.)]) ?$', re.M)
+EMPTY_ITEM = re.compile(r'^(?:> ?|(?:[-+*]|\d{1,9}[.)]) +| )*(?:[-+*]|\d{1,9}[.)]) ?$', re.M)
 
 
 def classify(m, f):
